@@ -21,7 +21,7 @@ func init() {
 	core.Register(&c20{base: base{
 		id: "C20",
 		rule: "cases = generated module sets (1-3 modules, groupings/uses/augments, config true/false mixed at every level, config false lists, choices with default cases whose members are state, " +
-			"rpcs and notifications, a random subset of features enabled) x 17 filters {none, IsConfig, IsState, IsOpd, IsConfigOrState(), IncludeState(true/false) and Include / Exclude combinations of them, also of none and of nil} " +
+			"rpcs and notifications, a random subset of features enabled) x 23 filters {none, IsConfig, IsState, IsOpd, IsConfigOrState(), IncludeState(true/false) and Include / Exclude combinations of them, also of none and of nil} " +
 			": the canonical dump of the filtered compilation must equal the dump of the unfiltered compilation from which every node failing the predicate " +
 			"(the meaning of each filter is written out in the harness over the node's config flag and kind in the unfiltered schema; the exported predicate functions are not used for the reference) has been removed with its subtree; the filtered compilation must succeed whenever " +
 			"the unfiltered one does; distinct_nontrivial = distinct (module texts, filter) pairs in which the filter removed at least one node and kept at least one",
@@ -63,6 +63,13 @@ var c20Filters = []c20Filter{
 	{"Exclude(IsConfig,IsOpd)", compile.Exclude(compile.IsConfig, compile.IsOpd), func(c, o bool) bool { return !c && !o }},
 	{"Include()", compile.Include(), func(c, o bool) bool { return false }},
 	{"Exclude(nil)", compile.Exclude(nil), func(c, o bool) bool { return true }},
+	// combinations of combinations: two results of the same combinator side by side
+	{"Include(Exclude(IsState),Exclude(IsConfig))", compile.Include(compile.Exclude(compile.IsState), compile.Exclude(compile.IsConfig)), func(c, o bool) bool { return !c20State(c, o) || !c }},
+	{"Include(IncludeState(false),Exclude(IsOpd))", compile.Include(compile.IncludeState(false), compile.Exclude(compile.IsOpd)), func(c, o bool) bool { return !c20State(c, o) || !o }},
+	{"Exclude(Include(IsState),Include(IsOpd))", compile.Exclude(compile.Include(compile.IsState), compile.Include(compile.IsOpd)), func(c, o bool) bool { return !c20State(c, o) && !o }},
+	{"Include(Include(IsConfig),Include(IsOpd))", compile.Include(compile.Include(compile.IsConfig), compile.Include(compile.IsOpd)), func(c, o bool) bool { return c || o }},
+	{"Exclude(Exclude(IsState),Exclude(IsOpd))", compile.Exclude(compile.Exclude(compile.IsState), compile.Exclude(compile.IsOpd)), func(c, o bool) bool { return false }},
+	{"Include(IsConfigOrState(),Include(IsOpd))", compile.Include(compile.IsConfigOrState(), compile.Include(compile.IsOpd)), func(c, o bool) bool { return true }},
 }
 
 func (p *c20) NumCases(tier string, seed int64) int { return tierN(tier, 1000, 40000) }
